@@ -409,6 +409,18 @@ async fn filestore_hard_state() -> Result<(), String> {
     let node = boot(d1.path()).await;
     let mut want: (u64, Option<u64>) = (0, None);
     let mut members: Vec<u64> = vec![];
+    let mut joint: Option<Vec<u64>> = None;
+    let check_joint = |st: &async_raft_ext::storage::InitialState, joint: &Option<Vec<u64>>, at: String| -> Result<(), String> {
+        let got: Option<Vec<u64>> = st.membership.members_after_consensus.as_ref().map(|s| {
+            let mut v: Vec<u64> = s.iter().cloned().collect();
+            v.sort();
+            v
+        });
+        if &got != joint {
+            return Err(format!("{}: get_initial_state reports the joint half (members after consensus) {:?}, the last acknowledged membership save has {:?}", at, got, joint));
+        }
+        Ok(())
+    };
     let check = |st: &async_raft_ext::storage::InitialState, want: &(u64, Option<u64>), members: &Vec<u64>, at: String| -> Result<(), String> {
         if st.hard_state.current_term != want.0 {
             return Err(format!("{}: get_initial_state reports term {}, the last acknowledged save has {}", at, st.hard_state.current_term, want.0));
@@ -434,17 +446,23 @@ async fn filestore_hard_state() -> Result<(), String> {
                 let mut addrs = std::collections::HashMap::new();
                 addrs.insert(1u64, Arc::new("a:1".to_owned()));
                 addrs.insert(2u64, Arc::new("b:2".to_owned()));
+                let mlist: Vec<u64> = op["member"].as_array().map(|a| a.iter().filter_map(|x| x.as_u64()).collect()).unwrap_or_else(|| vec![1, 2]);
+                let jl: Option<Vec<u64>> = op["member_after_consensus"].as_array().map(|a| a.iter().filter_map(|x| x.as_u64()).collect());
+                if jl.is_some() {
+                    joint = jl.clone();
+                }
                 node.index
-                    .send(RaftIndexRequest::SaveMember { member: vec![1, 2], member_after_consensus: None, node_addr: Some(addrs) })
+                    .send(RaftIndexRequest::SaveMember { member: mlist.clone(), member_after_consensus: jl, node_addr: Some(addrs) })
                     .await
                     .map_err(|e| format!("MODEL: {}", e))?
                     .map_err(|e| format!("a membership save is answered with an error: {}", e))?;
-                members = vec![1, 2];
+                members = mlist;
             }
             other => return Err(format!("MODEL: unknown op {}", other)),
         }
         let st = node.store.get_initial_state().await.map_err(|e| format!("get_initial_state fails: {}", e))?;
         check(&st, &want, &members, format!("same process, after step {}", k + 1))?;
+        check_joint(&st, &joint, format!("same process, after step {}", k + 1))?;
     }
     tokio::time::sleep(Duration::from_millis(100)).await;
     for item in std::fs::read_dir(d1.path()).unwrap() {
@@ -455,6 +473,7 @@ async fn filestore_hard_state() -> Result<(), String> {
     }
     let restarted = boot(d2.path()).await;
     let st = restarted.store.get_initial_state().await.map_err(|e| format!("get_initial_state fails after the restart: {}", e))?;
+    check_joint(&st, &joint, "after restart".to_string())?;
     check(&st, &want, &members, "after restart".to_string())
 }
 
